@@ -136,6 +136,12 @@ def _pt(case, dim):
     ok, back = c.lib("R.inv()*(R*p)", lambda: X_so.inv() * (X_so * arg))
     if ok:
         _cmp(c, "Rinv(Rp)=p", back, P, tol, sc)
+    Xyo = SOc(Y[:dim, :dim].copy(), check=False)
+    ok, lhs = c.lib("(R*S)*p", lambda: (X_so * Xyo) * arg)
+    ok2, rhs = c.lib("R*(S*p)", lambda: X_so * (Xyo * arg))
+    if ok and ok2:
+        _cmp(c, "(RS)p=R(Sp)", np.asarray(lhs, dtype=float), np.asarray(rhs, dtype=float).reshape(dim, -1), tol, sc)
+        _cmp(c, "(RS)p/value", lhs, R @ (Y[:dim, :dim] @ P), tol, sc)
     # isometry on the library's own output
     if N >= 2:
         ok, got = c.lib("SE*p", lambda: X_se * P.copy())
@@ -161,6 +167,17 @@ def _pt(case, dim):
             ok2, got = c.lib("UQ*p", lambda: U * arg)
             if ok2:
                 _cmp(c, "UQ*p/value", got, want_q, tol, sc)
+        if ok:
+            qy = refs.q_of(case["Y"]["rot"])
+            Uy = L.UnitQuaternion([float(x) for x in qy])
+            ok2, lhs = c.lib("(q1*q2)*p", lambda: (U * Uy) * arg)
+            ok3, rhs = c.lib("q1*(q2*p)", lambda: U * np.asarray(Uy * arg, dtype=float).reshape(P.shape if N > 1 else (3,)))
+            if ok2 and ok3:
+                _cmp(c, "(q1q2)p=q1(q2p)", lhs, np.asarray(rhs, dtype=float).reshape(3, -1), tol, sc)
+                _cmp(c, "(q1q2)p/value", lhs, Rq @ refs.q2r(qy) @ P, tol, sc)
+            ok2, back = c.lib("q.inv()*(q*p)", lambda: U.inv() * np.asarray(U * arg, dtype=float).reshape(P.shape if N > 1 else (3,)))
+            if ok2:
+                _cmp(c, "qinv(qp)=p", back, P, tol, sc)
         if N == 1:
             ok, got = c.lib("qvmul", b.qvmul, q.copy(), arg)
             if ok:
